@@ -137,6 +137,23 @@ def _second_value(rec):
     rec.add_asserted_type(mm("T2"))
 
 
+PROBE_NAMES = ("mm:probe", "ex:probe", "probe", "zz7:probe", "newb:probe")
+
+
+def resolutions(kind, obj):
+    """what each container of obj makes of names given as strings (URI, None, or the exception's class)"""
+    conts = [obj] if kind == "bundle" else [obj] + list(obj.bundles)
+    res = []
+    for c in conts:
+        for n in PROBE_NAMES:
+            try:
+                q = c.valid_qualified_name(n)
+                res.append(None if q is None else q.uri)
+            except Exception as e:
+                res.append("raises:" + type(e).__name__)
+    return tuple(res)
+
+
 def obs_of(kind, obj):
     if kind == "rec":
         return observe.robs(obj)
@@ -218,6 +235,21 @@ class C12(spec.Spec):
                 return
         out.outcomes["independent:%s" % label.split("[")[0]] += 1
         out.nontrivial += 1
+        if mj is None:
+            # how the untouched side resolves names given as strings is part of its namespace declarations: it must
+            # resolve them as its twin does (same history, same derivation, no mutation on either side).  Asked last,
+            # and of both worlds alike, because a resolution may itself register a namespace.
+            ok, oo = (sk, s) if side == "result" else (rk, r)
+            if ok != "rec":
+                d_t = self.fresh(hist).doc
+                _, rk_t, r_t, sk_t, s_t = derive(d_t)[di]
+                want = resolutions(ok, s_t if side == "result" else r_t)
+                got = resolutions(ok, oo)
+                if got != want:
+                    self.report(out, "source-changed-by-mutating-result" if side == "result" else "result-changed-by-mutating-source",
+                                label, mlabel + "|string-names-resolve-differently", want, got, hh)
+                    return
+                out.outcomes["string-names-resolve-as-in-the-twin"] += 1
         if mj is not None:
             # second mutation on the other side
             b_r, b_s, b_d = obs_of(rk, r), obs_of(sk, s), whole()
